@@ -348,6 +348,81 @@ fn lib_models_small(run: &mut Run, rng: &mut Rng) {
     run.describe(|| desc.clone());
 }
 
+/// lookup models at an arbitrary (Probability, PRECISION), in particular PRECISION equal to the
+/// full width of the Probability type, on u16-word coders
+fn lib_models_lookup<Pr, const P: usize>(run: &mut Run, rng: &mut Rng)
+where
+    Pr: Num + AsPrimitive<usize> + AsPrimitive<f64> + Into<usize> + Into<u16> + Into<f64>,
+    usize: AsPrimitive<Pr> + AsPrimitive<f64>,
+    f64: AsPrimitive<Pr>,
+    u16: AsPrimitive<Pr>,
+{
+    run.h(6 << 60 | (P as u64) << 8 | Pr::NBITS as u64);
+    run.count("library_model_cases", 1);
+    run.count("lookup_cases_at_generic_precision", 1);
+    let cap = (crate::num::pow2(P as u32) as usize).saturating_sub(2);
+    let v: Vec<f64> = gen_float_table(rng, cap.min(if run.small { 8 } else { 100 }));
+    let n = v.len();
+    let labels: Vec<i32> = (0..n as i32).map(|i| 3 * i + 5).collect();
+    let (data, kind) = gen_garbage::<u16>(rng, None, 30);
+    for x in &data {
+        run.h(*x as u64);
+    }
+    for x in &v {
+        run.h(x.to_bits());
+    }
+    let desc = format!("lookup models <{},{}> [{kind}] {} ; table {}", Pr::NAME, P, words_desc(&data), table_desc(&v));
+    run.note(|| desc.clone());
+    let Ok(eager) = ContiguousCategoricalEntropyModel::<Pr, Vec<Pr>, P>::from_floating_point_probabilities_fast(&v, None) else { return };
+    let lk_conv = eager.to_lookup_decoder_model();
+    let glk = eager.to_generic_lookup_decoder_model();
+    let Ok(lk_direct) = ContiguousLookupDecoderModel::<Pr, Vec<Pr>, Box<[Pr]>, P>::from_floating_point_probabilities_fast(&v, None) else { return };
+    let Ok(nclk) = NonContiguousLookupDecoderModel::<i32, Pr, Vec<(Pr, i32)>, Box<[Pr]>, P>::from_symbols_and_floating_point_probabilities_fast(labels.iter().copied(), &v, None) else { return };
+    let Ok(ncdec) = NonContiguousCategoricalDecoderModel::<i32, Pr, Vec<(Pr, i32)>, P>::from_symbols_and_floating_point_probabilities_fast(labels.iter().copied(), &v, None) else { return };
+    let nclk_conv = ncdec.to_lookup_decoder_model();
+    let k = if run.small { 20 } else { 120 };
+    let mut ans = AnsCoder::<u16, u32, Vec<u16>>::from_binary(data.clone()).unwrap_infallible();
+    let mut ans_ref = ans.clone();
+    for i in 0..k {
+        // all lookup representations of the same table must decode the same symbol as the
+        // searched decoder (which also pins membership in the support)
+        let which = rng.below(5);
+        let expect = ans_ref.decode_symbol(&eager).unwrap_infallible();
+        let got: usize = match which {
+            0 => ans.decode_symbol(&lk_conv).unwrap_infallible(),
+            1 => ans.decode_symbol(&glk).unwrap_infallible(),
+            2 => ans.decode_symbol(&lk_direct).unwrap_infallible(),
+            3 => {
+                let g = ans.decode_symbol(&nclk).unwrap_infallible();
+                match labels.iter().position(|&l| l == g) {
+                    Some(p) => p,
+                    None => usize::MAX,
+                }
+            }
+            _ => {
+                let g = ans.decode_symbol(&nclk_conv).unwrap_infallible();
+                match labels.iter().position(|&l| l == g) {
+                    Some(p) => p,
+                    None => usize::MAX,
+                }
+            }
+        };
+        if got >= n {
+            run.violation("symbol-outside-model", "C10/library-model-symbol-outside-support/lookup", format!("{desc} :: decode #{i} with lookup representation {which} returned a symbol outside the support"));
+            return;
+        }
+        if got != expect {
+            // a different in-support symbol is C05's business, not C10's: counted only. (From
+            // here on the two coders' states differ; resynchronise.)
+            run.count("lookup_disagrees_with_searched_decoder", 1);
+            ans_ref = ans.clone();
+        }
+    }
+    run.count("library_model_symbols_decoded", k as u64);
+    run.nontrivial();
+    run.describe(|| desc.clone());
+}
+
 fn lib_models_default(run: &mut Run, rng: &mut Rng) {
     run.h(5 << 60);
     run.count("library_model_cases", 1);
@@ -435,7 +510,12 @@ pub fn case(run: &mut Run, rng: &mut Rng) {
             let k = rng.below(combos.len() as u64) as usize;
             combos[k](run, rng)
         }
-        6 | 7 | 8 => lib_models_small(run, rng),
+        6 | 7 => lib_models_small(run, rng),
+        8 => {
+            let combos: &[fn(&mut Run, &mut Rng)] = &[lib_models_lookup::<u8, 8>, lib_models_lookup::<u16, 16>, lib_models_lookup::<u16, 12>, lib_models_lookup::<u8, 5>];
+            let k = rng.below(combos.len() as u64) as usize;
+            combos[k](run, rng)
+        }
         _ => lib_models_default(run, rng),
     }
 }
